@@ -265,6 +265,8 @@ def _ops(M):
         'tag code conflict': lambda: setattr(M.Tag[1], 'code', 200),
         'delete course': lambda: C[1].delete(),
         'delete refused after cascading to a created object (mixed)': lambda: (M.Tag(id=9, code=900, owner=P[1]), _arm(), P[1].delete()),
+        'delete refused after cascading to an object whose edit is the first pending write (mixed)': lambda: (setattr(M.Tag[1], 'code', 555), _arm(), P[1].delete()),
+        'delete refused after cascading to two edited objects (mixed)': lambda: (setattr(P[2], 'name', 'zz'), setattr(M.Tag[1], 'code', 555), _arm(), P[1].delete()),
         'delete a created object (mixed)': lambda: (cur().state.__setitem__('n', P(id=9, name='x', u=77, group=G[2], courses=[C[1]])), _arm(), cur().state['n'].delete()),
         'refused delete with pending collection changes (mixed)': lambda: (P[1].courses.remove(C[1]), P[1].courses.add(C[3]), _arm(), P[1].delete()),
         'set fails after replacing a collection that has pending changes (mixed)': lambda: (P[2].courses.add(C[3]), P[2].courses.remove(C[2]), _arm(), P[2].set(courses=[C[1]], u=10)),
